@@ -97,7 +97,7 @@ def free_flags(p):
     return (f[1] == "1" or f[2] == "1", f[4] == "1" or f[5] == "1")
 
 
-def obs_fn(t, A, B, C, orient, xnorth):
+def obs_fn(t, A, B, C, orient, xnorth, face2=False):
     """observation function in internal units (rad / m) from coordinates; the generator's own statement"""
     if t in ("direction", "azimuth"):
         s = math.atan2(B[1] - A[1], B[0] - A[0])
@@ -111,7 +111,8 @@ def obs_fn(t, A, B, C, orient, xnorth):
     if t == "s-distance":
         return math.sqrt(sum((B[i] - A[i]) ** 2 for i in range(3)))
     if t == "z-angle":
-        return math.atan2(math.hypot(B[0] - A[0], B[1] - A[1]), B[2] - A[2])
+        z = math.atan2(math.hypot(B[0] - A[0], B[1] - A[1]), B[2] - A[2])
+        return 2 * math.pi - z if face2 else z      # a reading above 200 gon is a second-face reading: 400 gon - z
     if t == "dx":
         return B[0] - A[0]
     if t == "dy":
@@ -130,7 +131,8 @@ def derivative_oracle(d, k):
     C = [P[ob["fs"]][c] for c in "xyz"] if ob["t"] == "angle" else [0, 0, 0]
     roles = roles_of(d, ob)
     unit = (200 / math.pi * 1e4) if ob["t"] in ANG else 1e3
-    f0 = obs_fn(ob["t"], A, B, C, ob["orient"], d["xnorth"])
+    face2 = ob["t"] == "z-angle" and ob["val"] > math.pi
+    f0 = obs_fn(ob["t"], A, B, C, ob["orient"], d["xnorth"], face2)
     for idx, cf in zip(row["idx"], row["coef"]):
         r = roles.get(idx)
         if r is None:
@@ -143,7 +145,7 @@ def derivative_oracle(d, k):
             tgt = {1: (Ap, Am, 0), 2: (Ap, Am, 1), 3: (Ap, Am, 2), 4: (Bp, Bm, 0), 5: (Bp, Bm, 1), 6: (Bp, Bm, 2), 7: (Cp, Cm, 0), 8: (Cp, Cm, 1)}[r]
             tgt[0][tgt[2]] += h
             tgt[1][tgt[2]] -= h
-            df = obs_fn(ob["t"], Ap, Bp, Cp, ob["orient"], d["xnorth"]) - obs_fn(ob["t"], Am, Bm, Cm, ob["orient"], d["xnorth"])
+            df = obs_fn(ob["t"], Ap, Bp, Cp, ob["orient"], d["xnorth"], face2) - obs_fn(ob["t"], Am, Bm, Cm, ob["orient"], d["xnorth"], face2)
             if ob["t"] in ANG:
                 df = (df + math.pi) % (2 * math.pi) - math.pi
             num = df / (2 * h) * unit / 1e3      # per mm
@@ -232,6 +234,12 @@ def gen_net(rng):
                 ob["bs"], ob["fs"] = cid, bs
                 ob["val"] = netgen.obs_value(ob, truth, 0.0, st)
             net["clusters"].append({"kind": "obs", "from": st, "obs": [ob]})
+    # zenith angles read in the second face of the instrument: 400 gon - z
+    for c in net["clusters"]:
+        if c["kind"] == "obs" and not c.get("cov"):
+            for ob in c["obs"]:
+                if ob["t"] == "z-angle" and "valstr" not in ob and rng.random() < 0.35:
+                    ob["val"] = 400.0 - ob["val"]
     # put some observed values near the wrap: turn a direction set so that a reading is ~0 / ~400 / ~200 gon
     for c in net["clusters"]:
         if c["kind"] == "obs" and rng.random() < 0.5:
